@@ -25,6 +25,7 @@ from vtlengine.duckdb_transpiler.io._validation import (
     validate_input_path,
     validate_no_duplicates,
     validate_temporal_columns,
+    validate_time_period_ranges,
 )
 from vtlengine.Exceptions import DataLoadError, InputValidationException
 from vtlengine.files.sdmx_handler import (
@@ -51,15 +52,28 @@ def _validate_loaded_table(
     1. TimePeriod normalization to canonical format
     2. DWI check (no identifiers → max 1 row)
     3. Duplicate identifier check via GROUP BY HAVING
-    4. Temporal type regex validation (TimePeriod, TimeInterval, Duration)
+    4. Temporal type regex validation (TimePeriod, TimeInterval, Duration) on the values as
+       supplied (before step 1) and calendar validity of the normalized TimePeriod values
 
     On validation failure, drops the table and re-raises DataLoadError.
     Respects VTL_SKIP_LOAD_VALIDATION (skips checks 2-4 when set).
     """
+    skip_validation = _skip_load_validation()
+
+    # Temporal type validation (format of the values as supplied). It has to run before the
+    # normalization: vtl_period_normalize reads malformed texts leniently ('2020M+5' or
+    # '2020-01-15garbage' would come out as well-formed periods).
+    if not skip_validation:
+        try:
+            validate_temporal_columns(conn, table_name, components)
+        except DataLoadError:
+            conn.execute(f'DROP TABLE IF EXISTS "{table_name}"')
+            raise
+
     # Normalize TimePeriod columns to canonical internal representation
     _normalize_time_period_columns(conn, table_name, components)
 
-    if _skip_load_validation():
+    if skip_validation:
         return
 
     try:
@@ -74,8 +88,8 @@ def _validate_loaded_table(
         # Duplicate check (GROUP BY HAVING)
         validate_no_duplicates(conn, table_name, id_columns)
 
-        # Temporal type validation
-        validate_temporal_columns(conn, table_name, components)
+        # Time_Period values must exist in the calendar (month 13, week 54, day 366 ...)
+        validate_time_period_ranges(conn, table_name, components)
 
     except DataLoadError:
         conn.execute(f'DROP TABLE IF EXISTS "{table_name}"')
@@ -97,7 +111,7 @@ def _normalize_time_period_columns(
             try:
                 conn.execute(
                     f'UPDATE "{table_name}" SET "{comp_name}" = '
-                    f'vtl_period_normalize("{comp_name}") '
+                    f'vtl_period_normalize(TRIM("{comp_name}")) '
                     f'WHERE "{comp_name}" IS NOT NULL AND "{comp_name}" != \'\''
                 )
             except duckdb.Error as e:
